@@ -208,12 +208,11 @@ def make_dec_view(cls, dialect, hooks=None):
             gen = genf()
             t = hints[fv.name]
             # field level: nullable fields get None for None (FROM_SPEC), so reference the inner type
-            inner = g1._strip_annotated(t)[0]
-            if not isinstance(inner, typing.TypeVar):
-                inner = ref.strip(t)
-            if ref.is_optional(inner):
-                rest = [a for a in typing.get_args(inner) if a is not type(None)]
-                inner = rest[0] if len(rest) == 1 else inner
+            inner = t  # the full annotation (Annotated / NewType aliases are customization keys)
+            st_ = ref.strip(t) if not isinstance(g1._strip_annotated(t)[0], typing.TypeVar) else t
+            if ref.is_optional(st_):
+                rest = [a for a in typing.get_args(st_) if a is not type(None)]
+                inner = rest[0] if len(rest) == 1 else st_
             src = gen.dec(inner, "x")
             table = _ref_env(gen)
             sx = pysym.Executor(eng, gen.ns, hooks=hooks or {})
@@ -250,10 +249,11 @@ def make_enc_view(cls, dialect):
         for fv in g2.pack_view(cls):
             gen = genf()
             t = hints[fv.name]
-            inner = ref.strip(t)
-            if ref.is_optional(inner):
-                rest = [a for a in typing.get_args(inner) if a is not type(None)]
-                inner = rest[0] if len(rest) == 1 else inner
+            inner = t
+            st_ = ref.strip(t)
+            if ref.is_optional(st_):
+                rest = [a for a in typing.get_args(st_) if a is not type(None)]
+                inner = rest[0] if len(rest) == 1 else st_
             src = gen.enc(inner, "x")
             table = _ref_env(gen)
             sx = pysym.Executor(eng, gen.ns, hooks=ex.hooks)
